@@ -405,6 +405,13 @@ def run(rep):
         my = method(hn)
         pe = [(bb, t) for bb, t in H.calls() if cname(t).startswith('naga::front::wgsl::ParseError::emit_')]
         ve = [(bb, t) for bb, t in H.calls() if cname(t).startswith('naga::WithSpan::<E>::emit_')]
+        if not pe or not ve:
+            # the forwarding sits in private helpers / behind a trait object (`self.source_diagnostic()?.emit_to_stderr(src)`): judge the helper with
+            # its crate callees inlined and every implementation of a dynamically dispatched call expanded at the call site
+            from engine_mir import inlined
+            H = inlined(mir, hn, depth=4)
+            pe = [(bb, t) for bb, t in H.calls() if cname(t).startswith('naga::front::wgsl::ParseError::emit_')]
+            ve = [(bb, t) for bb, t in H.calls() if cname(t).startswith('naga::WithSpan::<E>::emit_')]
         rep.check(len(pe) == 1 and method(cname(pe[0][1])) == my, 'C17.5.dispatch', f'dispatch-parse:{hn}', H.where(),
                   f'{hn} must forward ParseError to naga ParseError::{my}; found {[cname(t) for _, t in pe]}', ok_detail=f'ParseError -> {cname(pe[0][1]) if pe else ""}')
         rep.check(len(ve) == 1 and method(cname(ve[0][1])) == my, 'C17.5.dispatch', f'dispatch-validation:{hn}', H.where(),
@@ -416,6 +423,17 @@ def run(rep):
                 rep.check(r is not None and r[0] == 2 and r[1] in ('', '&', '*'), 'C17.5.source-arg', f'source-arg-{label}:{hn}', H.where(bb),
                           f'{cname(t)} does not receive the caller\'s wgsl_source (root {r})', ok_detail='receives parameter _2 (wgsl_source)')
                 rr = canon(H, op_place(t['args'][0])) if op_place(t['args'][0]) else None
+                if rr is not None and ('@' + variant) not in rr[1] and 'dyn ' in H.locals[rr[0]]:
+                    # the receiver arrives through a trait object.  An implementation for T only ever runs on a pointer that was unsized from a `&T`:
+                    # every such coercion in the (inlined) helper must take the payload of the variant, and no trait object comes from elsewhere
+                    strip = lambda ty: re.sub(r"&('\w+ )?(mut )?", '', ty)
+                    want = strip(H.locals[op_local(t['args'][0])])
+                    casts = [(b_, st) for b_, blk in enumerate(H.blocks) for st in blk['stmts'] if st['rv']['rk'] == 'cast' and 'Unsize' in st['rv'].get('kind', '') and
+                             'dyn ' in st['rv'].get('ty', '') and op_local(st['rv']['ops'][0]) is not None and strip(H.locals[op_local(st['rv']['ops'][0])]) == want]
+                    foreign = [cname(t2) for _, t2 in H.calls() if 'dyn ' in H.locals[t2['dest']['l']]]
+                    roots = [canon(H, op_place(st['rv']['ops'][0])) for _, st in casts]
+                    if casts and not foreign and all(r_[0] == 1 and ('@' + variant) in r_[1] for r_ in roots):
+                        rr = roots[0]
                 rep.check(rr is not None and ('@' + variant) in rr[1], 'C17.5.variant', f'variant-{label}:{hn}', H.where(bb),
                           f'{cname(t)} is applied to {rr}, not to the error held by variant {variant}', ok_detail=f'receiver is the payload of {variant}')
                 rep.check(bool(guards(H, bb)), 'C17.5.variant', f'variant-guard-{label}:{hn}', H.where(bb), 'call not under the match on self', ok_detail='inside the match on self')
